@@ -391,9 +391,10 @@ func (x *threadCtx) explain(a action, path string, err error, got []string, all 
 func (x *threadCtx) runProgram(prog []action) {
 	defer func() {
 		if v := recover(); v != nil {
+			st := string(debug.Stack())
 			x.bad = append(x.bad, readerFinding{
-				Sig:    fmt.Sprintf("v2 keystore operation panicked: %s: backend=%s", errClass(fmt.Sprint(v)), x.backend),
-				Detail: map[string]interface{}{"thread": x.t, "panic": fmt.Sprint(v), "stack": string(debug.Stack()), "log": x.log},
+				Sig:    fmt.Sprintf("v2 keystore operation panicked: %s at %s: backend=%s", errClass(fmt.Sprint(v)), panicSite(st), x.backend),
+				Detail: map[string]interface{}{"thread": x.t, "panic": fmt.Sprint(v), "stack": st, "log": x.log},
 			})
 		}
 	}()
